@@ -128,19 +128,32 @@ def run(ctx: Ctx) -> None:
             if recv != "self._simulations[dest_name]":
                 bad.append(f"event scheduled on `{recv}` instead of the destination partition")
             override = p.decided(lambda t: t == "link.latencyisnotNone")
+            stamp_at = -1
             if override is True:
-                ws = [n.ast for n in p.nodes if n.kind == "stmt" and isinstance(n.ast, ast.Assign) and path_of(n.ast.targets[0]) == f"{evn}.time"]
-                if len(ws) != 1 or not (isinstance(ws[0].value, ast.BinOp) and isinstance(ws[0].value.op, ast.Add) and path_of(ws[0].value.left) == stn):
+                ws = [(i, n.ast) for i, n in enumerate(p.nodes) if n.kind == "stmt" and isinstance(n.ast, ast.Assign) and path_of(n.ast.targets[0]) == f"{evn}.time"]
+                if len(ws) != 1 or not (isinstance(ws[0][1].value, ast.BinOp) and isinstance(ws[0][1].value.op, ast.Add) and path_of(ws[0][1].value.left) == stn):
                     bad.append("latency override must re-stamp the event at send_time + sampled latency")
-            else:
-                # min-latency validation must have passed
-                chk = [(n, l) for n, l in zip(p.nodes, p.labels) if n.kind == "test" and l is not None and "min_latency" in unparse(n.ast)]
-                if not chk or chk[-1][1][1] is not False:
-                    bad.append(f"path [{p.describe()}] schedules a cross-partition event without the min_latency check having passed")
                 else:
-                    f = atoms(chk[-1][0].ast, True)[0]
-                    if not (f.op == "lt" and "min_latency" in f.b):
-                        bad.append(f"min-latency test has the wrong direction: `{unparse(chk[-1][0].ast)}`")
+                    stamp_at = ws[0][0]
+                    for c in walk_scope(ws[0][1].value.right):
+                        if isinstance(c, ast.Call) and isinstance(c.func, ast.Attribute) and path_of(c.func.value) == "link.latency":
+                            ld = prog.cls("happysimulator/distributions/latency_distribution.py", "LatencyDistribution")
+                            if c.func.attr not in ld.methods:
+                                bad.append(f"latency override calls `link.latency.{c.func.attr}()`, which LatencyDistribution does not define")
+            # min-latency validation must have passed on the *final* arrival time (sampled or sender-stamped): an earlier arrival
+            # can land behind the destination partition's clock
+            chk = [(i, n, l) for i, (n, l) in enumerate(zip(p.nodes, p.labels)) if n.kind == "test" and l is not None and "min_latency" in unparse(n.ast)]
+            if not chk or chk[-1][2][1] is not False:
+                bad.append(f"path [{p.describe()}] schedules a cross-partition event without the min_latency check having passed")
+            elif chk[-1][0] < stamp_at:
+                bad.append(f"path [{p.describe()}] validates min_latency before the latency override re-stamps the event")
+            else:
+                f = atoms(chk[-1][1].ast, True)[0]
+                if not (f.op == "lt" and "min_latency" in f.b):
+                    bad.append(f"min-latency test has the wrong direction: `{unparse(chk[-1][1].ast)}`")
+                dl_ = [i for i, n in enumerate(p.nodes) if n.kind == "stmt" and isinstance(n.ast, ast.Assign) and path_of(n.ast.targets[0]) == "delay"]
+                if not dl_ or dl_[-1] < stamp_at:
+                    bad.append(f"path [{p.describe()}] measures the delay before the latency override re-stamps the event")
         else:
             if p.decided(lambda t: "packet_loss" in t and "random()" in t) is True:
                 kinds["lost"] += 1
@@ -302,12 +315,14 @@ def run(ctx: Ctx) -> None:
 
 
 MUTANTS = [
+    ("override-calls-missing-method", COORD, "                    event.time = send_time + link.latency.get_latency(send_time)", "                    event.time = send_time + link.latency.sample()", "C05-2"),
+    ("override-skips-min-latency-check", COORD, "                    event.time = send_time + link.latency.get_latency(send_time)\n\n", "                    event.time = send_time + link.latency.get_latency(send_time)\n                    self._simulations[dest_name].schedule(event)\n                    delivered += 1\n                    continue\n\n", "C05-2"),
     ("route-linked-also-local", ROUT, "                outbox.append((event, current_time))", "                outbox.append((event, current_time))\n                local.append(event)", "C05-2"),
     ("route-unknown-silently-dropped", ROUT, "                raise RuntimeError(\n                    f\"Partition '{partition_name}': event targets entity \"", "                continue\n                raise RuntimeError(\n                    f\"Partition '{partition_name}': event targets entity \"", "C05-2"),
     ("route-send-time-is-event-time", ROUT, "outbox.append((event, current_time))", "outbox.append((event, event.time))", "C05-2"),
     ("exchange-no-clear", COORD, "            outbox.clear()\n", "", "C05-2"),
     ("exchange-clear-inside-loop", COORD, "                delivered += 1\n\n            outbox.clear()\n", "                delivered += 1\n                outbox.clear()\n", "C05-2"),
-    ("exchange-min-latency-unchecked", COORD, "                    if delay < link.min_latency - 1e-12:", "                    if False and delay < link.min_latency - 1e-12:", "C05-2"),
+    ("exchange-min-latency-unchecked", COORD, "                if delay < link.min_latency - 1e-12:", "                if False and delay < link.min_latency - 1e-12:", "C05-2"),
     ("exchange-schedules-on-source", COORD, "self._simulations[dest_name].schedule(event)", "self._simulations[source_name].schedule(event)", "C05-2"),
     ("exchange-delay-from-window-end", COORD, "delay = (event.time - send_time).to_seconds()", "delay = (event.time - window_end).to_seconds()", "C05-3"),
     ("window-check-dropped", VAL, "        if window_size > min_link_latency:", "        if window_size > 10 * min_link_latency:", "C05-4"),
